@@ -355,7 +355,7 @@ def run_model(exe, mode, lines, timeout=1800):
     return out
 
 
-def run_impl(exe, lines, per_timeout=20.0, args=(), env_extra=None):
+def run_impl(exe, lines, per_timeout=20.0, args=(), env_extra=None, max_restarts=40):
     """Feed scenario lines to the harness; one observation line per scenario.  A crash, sanitizer report
     or hang on scenario k yields '!CRASH ...' / '!HANG' for k and the harness is restarted at k+1."""
     env = dict(os.environ)
@@ -365,6 +365,7 @@ def run_impl(exe, lines, per_timeout=20.0, args=(), env_extra=None):
     obs = []
     i = 0
     restarts = 0
+    hangs = 0
     while i < len(lines):
         chunk = lines[i:]
         budget = per_timeout + 0.02 * len(chunk) * max(1.0, per_timeout / 20.0)
@@ -390,12 +391,15 @@ def run_impl(exe, lines, per_timeout=20.0, args=(), env_extra=None):
         # scenario i killed the harness
         restarts += 1
         if hung:
+            hangs += 1
             obs.append("!HANG")
         else:
             obs.append("!CRASH " + crash_summary(err, rc))
         i += 1
-        if restarts > 400:
-            raise BuildError("harness keeps crashing (>400 restarts); last stderr:\n" + err[-2000:])
+        if restarts >= max_restarts or hangs >= 4:
+            # the implementation keeps dying: stop here, the rest is not run (and not judged)
+            obs.extend(["!SKIPPED"] * (len(lines) - i))
+            break
     return obs
 
 
@@ -572,7 +576,7 @@ def decide(P, prop, model, exes, scns, ev, write_replay, viol, known_hits, broke
     for fl, exe in exes.items():
         args = getattr(P, "HARNESS_ARGS", {}).get(fl, ())
         iobs = run_impl(exe, scns, per_timeout=per_timeout, args=args)
-        cov["evaluations"] += len(scns)
+        cov["evaluations"] += sum(1 for o in iobs if o != "!SKIPPED")
         # model-free oracle on the implementation's observations
         crashed = [o.startswith("!") for o in iobs]
         if model:
@@ -584,6 +588,8 @@ def decide(P, prop, model, exes, scns, ev, write_replay, viol, known_hits, broke
             if flsel and not flsel(s, fl):
                 continue
             bad = None
+            if o == "!SKIPPED":
+                continue
             if crashed[k]:
                 if getattr(P, "CRASH_IS_VIOLATION", True):
                     bad = "implementation crashed/hung/sanitizer report: " + o
